@@ -5,7 +5,7 @@ import json, os, re, shutil, sys
 V = os.path.dirname(os.path.dirname(os.path.abspath(__file__)))
 log = open(sys.argv[1]).read()
 only = set(sys.argv[2:])
-for m in re.finditer(r"^(C\d\d)/(\d) demo_unchanged=(\d+) demo_changed=(\d+) baseline_changed=\[(.*?)\] violations=(\d+) :: (.*)$", log, re.M):
+for m in re.finditer(r"^(C\d\d)/(\w) demo_unchanged=(\d+) demo_changed=(\d+) baseline_changed=\[(.*?)\] violations=(\d+) :: (.*)$", log, re.M):
     pid, k, d0, d1, base, viol, last = m.groups()
     if only and pid not in only:
         continue
